@@ -225,10 +225,14 @@ def gen_pre(rng, seq, src, p_pre=0.5, residue=False, alias=False, clash_ok=True,
                                  e.get("size", 10), _size(rng, big_ok)])
                 pre.append(dict(_meta(rng, "file"), p=rp, t="file", seed=seq(), size=sz))
                 tags.add("pre:file-diff")
-            elif r < 0.48 and e["t"] == "file":
+            elif r < 0.44 and e["t"] == "file":
                 pre.append(dict(e, p=rp, hl=None))
                 pre[-1].pop("hl")
                 tags.add("pre:file-identical")
+            elif r < 0.52 and e["t"] == "file":
+                # byte-identical data, other owner/mode/mtime (a "nothing to copy" shortcut must still be atomic)
+                pre.append(dict(_meta(rng, "file"), p=rp, t="file", seed=e["seed"], size=e["size"]))
+                tags.add("pre:file-same-data-other-meta")
             elif r < 0.62:
                 peer = outside_file() if rng.random() < 0.5 else None
                 if peer is None:
